@@ -57,7 +57,7 @@ SIG_STALE = "C35/transaction-snapshot/keeps-states-that-left-the-session"
 
 
 class MObj:
-    __slots__ = ("st", "sess", "marked", "was_deleted", "id", "visited", "rb_edge")
+    __slots__ = ("st", "sess", "marked", "was_deleted", "id", "visited", "rb_edge", "dirty")
 
     def __init__(self, ident):
         self.st = "T"
@@ -67,6 +67,7 @@ class MObj:
         self.id = ident
         self.visited = {"T"}
         self.rb_edge = False
+        self.dirty = True  # may carry unflushed attribute changes (constructor / harness assignments / merge target)
 
     def snap(self):
         return (self.st, self.sess, self.marked, self.was_deleted)
@@ -141,6 +142,9 @@ class Model:
             ms.rows.discard(o.id)
             ms.idmap.pop(o.id, None)
             fr.deleted.append(i)
+        for o in self.objs:
+            if o.sess == s and o.st == "S":
+                o.dirty = False
         return pend  # caller registers ids (may need to read autogenerated ones)
 
     def register_inserted(self, s, pend):
@@ -178,8 +182,10 @@ class Model:
                 o = self.objs[i]
                 if o.sess == s and o.st == "D":
                     continue
-                # a detached state is ignored by the restore; a transient one (key gone) or one attached elsewhere is not
-                if o.sess is not None or o.st == "T":
+                # only a detached state that still carries the was-deleted flag is ignored by the restore; a transient one (key gone)
+                # raises, one attached elsewhere raises, and a detached one whose flag was reset (make_transient +
+                # make_transient_to_detached) is silently re-attached as persistent
+                if o.sess is not None or o.st == "T" or (o.st == "X" and not o.was_deleted):
                     return True
         return False
 
@@ -245,6 +251,9 @@ class Model:
                 ms.idmap[o.id] = i
         for i in self.marked(s):
             self.objs[i].marked = False
+        for o in self.objs:
+            if o.sess == s and o.st == "S":
+                o.dirty = False  # expired by the rollback
         ms.rows = set(fr.rows)
         if len(ms.frames) > 1:
             ms.frames.pop()
@@ -432,6 +441,7 @@ def check(case, ctx):
                         ident = model.fresh_id()
                         m.id = ident
                         r.id = ident
+                        m.dirty = True
                         model.move(i, "P")
                         m.sess = s
                     elif m.st == "P":
@@ -602,6 +612,7 @@ def check(case, ctx):
                         skip = "unknown-pk"
                     else:
                         r.id = m.id
+                        m.dirty = False  # make_transient_to_detached commits the state
                         model.edges.add("T>X")
                         m.st = "X"
                         m.visited.add("X")
@@ -630,6 +641,7 @@ def check(case, ctx):
                             if got is None or any(got is x for x in real):
                                 raise Violation("C35/get/load", f"get({key}) returned {got!r}, a newly loaded object was expected")
                             j = adopt(got, "S", s, key)
+                            model.objs[j].dirty = False
                             model.sess[s].idmap[key] = j
                             model.events.append(("loaded_as_persistent", j))
                             model.edges.add("load>S")
@@ -654,15 +666,22 @@ def check(case, ctx):
                         key = m.id
                         if m.st == "T":
                             r.id = key
-                        if key in ms.idmap and ms.idmap[key] != i and key not in ms.rows:
+                            m.dirty = True
+                        if not load and key not in ms.idmap and m.dirty:
+                            # documented rejection ("does not support objects marked as 'dirty'"); the modified flag is not
+                            # part of the lifecycle model, so such sources are simply not merged with load=False
+                            skip = "merge-noload-of-possibly-dirty-source"
+                        elif key in ms.idmap and ms.idmap[key] != i and key not in ms.rows:
                             skip = "merge-into-identity-without-row"
                         elif key in ms.idmap:
                             j = ms.idmap[key]
 
-                            def run(j=j, load=load, sess=sess):
+                            def run(j=j, load=load, sess=sess, i=i):
                                 got = sess.merge(r, load=load)
                                 if got is not real[j]:
                                     raise Violation("C35/merge/identity", f"merge returned {got!r}, identity map holds object {j}")
+                                if j != i:
+                                    model.objs[j].dirty = bool(load)  # attribute copy (load=False commits the copy)
 
                         elif key in model.pending_ids(s):
                             skip = "merge-would-duplicate-pending"
@@ -673,6 +692,7 @@ def check(case, ctx):
                                 if any(got is x for x in real):
                                     raise Violation("C35/merge/copy", "merge(load=False) returned an existing object")
                                 j = adopt(got, "S", s, key)
+                                model.objs[j].dirty = False
                                 model.sess[s].idmap[key] = j
                                 model.events.append(("detached_to_persistent", j))
                                 model.edges.add("merge-noload>S")
